@@ -5,6 +5,7 @@ import (
 	"errors"
 	"fmt"
 	"os"
+	"regexp"
 	"sync"
 	"testing"
 	"time"
@@ -32,7 +33,16 @@ type c36Case struct {
 	// OverSRPC (history mode): the lookup runs over a real SRPC client/server pair (generated stream wrappers and
 	// message encoding included) instead of the server method being called with a harness stream
 	OverSRPC bool `json:"over_srpc,omitempty"`
+	// Filtered (history mode): the providers discriminate on the requested server id (provider 0 serves only
+	// "server-a", provider 1 any, provider 2 only requests without a server id) and the lookup asks for Server
+	Filtered bool `json:"filtered,omitempty"`
+	// Bystander (history mode, 0 = none): another lookup of the same service for server id c36Servers[Bystander-1]
+	// is already running on the bus when the tested lookup starts
+	Bystander int `json:"bystander,omitempty"`
 }
+
+var c36Servers = []string{"", "server-a", "server-b"}
+var c36Filters = []string{"^server-a$", "", "^$"}
 
 func genC36(t *rapid.T) c36Case {
 	c := c36Case{Mode: rapid.SampledFrom([]string{"history", "codec", "codec"}).Draw(t, "mode")}
@@ -43,6 +53,11 @@ func genC36(t *rapid.T) c36Case {
 			c.Ops = append(c.Ops, c36Op{Op: "toggle", I: rapid.SampledFrom([]int{0, 0, 0, 1, 1, 2}).Draw(t, "i")})
 		}
 		c.Service = "svc/" + rapid.StringMatching(`[a-c]{1,3}`).Draw(t, "svc")
+		if rapid.Bool().Draw(t, "filtered") {
+			c.Filtered = true
+			c.Server = rapid.SampledFrom(c36Servers).Draw(t, "server")
+			c.Bystander = rapid.IntRange(0, len(c36Servers)).Draw(t, "bystander")
+		}
 		return c
 	}
 	c.Service = rapid.OneOf(rapid.String(), rapid.SampledFrom([]string{"", "a", "é/ü", "a\x00b"})).Draw(t, "service")
@@ -172,6 +187,34 @@ func checkC36(c c36Case) (o vstat.Outcome) {
 	defer cancel()
 	srv := bifrost_rpc_access.NewAccessRpcServiceServer(tb.Bus, false, nil)
 	strm := &lookupStream{ctx: ctx}
+	if c.Bystander != 0 {
+		_, bref, berr := tb.Bus.AddDirective(bifrost_rpc.NewLookupRpcService(c.Service, c36Servers[c.Bystander-1]), nil)
+		if berr != nil {
+			o.Discard = true
+			return
+		}
+		defer bref.Release()
+		time.Sleep(2 * time.Millisecond)
+		if c36Servers[c.Bystander-1] != c.Server {
+			o.Classes = append(o.Classes, "lookup-for-another-server-id-running")
+		}
+	}
+	// serves says whether provider i answers the tested lookup
+	serves := func(i int) bool {
+		if !c.Filtered || c36Filters[i] == "" {
+			return true
+		}
+		return regexp.MustCompile(c36Filters[i]).MatchString(c.Server)
+	}
+	matching := func(live map[int]func()) int {
+		n := 0
+		for i := range live {
+			if serves(i) {
+				n++
+			}
+		}
+		return n
+	}
 	done := make(chan error, 1)
 	if c.OverSRPC {
 		o.Classes = append(o.Classes, "over-srpc")
@@ -181,7 +224,7 @@ func checkC36(c c36Case) (o vstat.Outcome) {
 			return
 		}
 		client := bifrost_rpc_access.NewSRPCAccessRpcServiceClient(srpc.NewClient(srpc.NewServerPipe(srpc.NewServer(mux))))
-		cs, err := client.LookupRpcService(ctx, bifrost_rpc_access.NewLookupRpcServiceRequest(c.Service, ""))
+		cs, err := client.LookupRpcService(ctx, bifrost_rpc_access.NewLookupRpcServiceRequest(c.Service, c.Server))
 		if err != nil {
 			o.V = vstat.Viol("lookup-call-failed", "LookupRpcService over SRPC: %v", err)
 			return
@@ -201,7 +244,7 @@ func checkC36(c c36Case) (o vstat.Outcome) {
 		}()
 	} else {
 		go func() {
-			done <- srv.LookupRpcService(bifrost_rpc_access.NewLookupRpcServiceRequest(c.Service, ""), strm)
+			done <- srv.LookupRpcService(bifrost_rpc_access.NewLookupRpcServiceRequest(c.Service, c.Server), strm)
 		}()
 	}
 	live := map[int]func(){}
@@ -213,7 +256,7 @@ func checkC36(c c36Case) (o vstat.Outcome) {
 	dropped, rose := false, false
 	var hist []string
 	for _, op := range c.Ops {
-		before := len(live)
+		before := matching(live)
 		opName := op.Op
 		if opName == "toggle" {
 			if _, ok := live[op.I]; ok {
@@ -227,7 +270,11 @@ func checkC36(c c36Case) (o vstat.Outcome) {
 			if _, ok := live[op.I]; ok {
 				continue
 			}
-			ctrl := bifrost_rpc.NewRpcServiceController(info(fmt.Sprintf("verif/provider-%d", op.I)), bifrost_rpc.NewRpcServiceBuilder(&recInvoker{}), []string{"svc/"}, false, nil, nil, nil)
+			var sre *regexp.Regexp
+			if c.Filtered && c36Filters[op.I] != "" {
+				sre = regexp.MustCompile(c36Filters[op.I])
+			}
+			ctrl := bifrost_rpc.NewRpcServiceController(info(fmt.Sprintf("verif/provider-%d", op.I)), bifrost_rpc.NewRpcServiceBuilder(&recInvoker{}), []string{"svc/"}, false, nil, nil, sre)
 			rel, err := tb.Bus.AddController(ctx, ctrl, nil)
 			if err != nil {
 				o.Discard = true
@@ -243,15 +290,19 @@ func checkC36(c c36Case) (o vstat.Outcome) {
 			delete(live, op.I)
 		}
 		hist = append(hist, fmt.Sprintf("%s%d", opName, op.I))
-		if before > 0 && len(live) == 0 {
+		now := matching(live)
+		if before > 0 && now == 0 {
 			dropped = true
 		}
-		if dropped && before == 0 && len(live) > 0 {
+		if dropped && before == 0 && now > 0 {
 			rose = true
+		}
+		if now != len(live) {
+			o.Classes = append(o.Classes, "provider-for-another-server-id-present")
 		}
 		// settle: wait until the stream reflects the provider count (eventual clause), then a quiet window
 		want := "R"
-		if len(live) > 0 {
+		if now > 0 {
 			want = "E"
 		}
 		ok := waitFor(10*time.Second, func() bool {
@@ -259,10 +310,15 @@ func checkC36(c c36Case) (o vstat.Outcome) {
 			return l == want || (l == "" && want == "R")
 		})
 		if !ok {
-			o.V = vstat.Viol("availability-not-reported", "after %v with %d providers the last of Exists/Removed is %q (log %v)", hist, len(live), lastER(strm.log()), strm.log())
+			o.V = vstat.Viol("availability-not-reported", "lookup (%q, server %q), bystander %d: after %v with %d provider(s) serving it the last of Exists/Removed is %q (log %v)", c.Service, c.Server, c.Bystander, hist, now, lastER(strm.log()), strm.log())
 			return
 		}
 		time.Sleep(settleWindow())
+	}
+	// after the last quiet window the stream still says what is the case
+	if l := lastER(strm.log()); (l == "E") != (matching(live) > 0) {
+		o.V = vstat.Viol("availability-not-reported", "lookup (%q, server %q), bystander %d: at the end of %v %d provider(s) serve it but the last of Exists/Removed is %q (log %v)", c.Service, c.Server, c.Bystander, hist, matching(live), l, strm.log())
+		return
 	}
 	cancel()
 	select {
@@ -275,7 +331,7 @@ func checkC36(c c36Case) (o vstat.Outcome) {
 		return
 	}
 	log := strm.log()
-	o.NonTrivial = dropped && rose
+	o.NonTrivial = (dropped && rose) || (c.Filtered && len(c.Ops) > 0)
 	if rose {
 		o.Classes = append(o.Classes, "providers-dropped-to-zero-and-rose")
 	}
@@ -309,7 +365,7 @@ func checkC36(c c36Case) (o vstat.Outcome) {
 
 var specC36 = vstat.Spec[c36Case]{
 	Property: "C36",
-	Rule: "history mode: a real bus + AccessRpcServiceServer.LookupRpcService on a harness stream, 1-8 add/remove operations over 3 provider controllers (RpcServiceControllers matching the service), one at a time with settle; " +
+	Rule: "history mode: a real bus + AccessRpcServiceServer.LookupRpcService on a harness stream, 1-8 add/remove operations over 3 provider controllers (RpcServiceControllers matching the service), one at a time with settle; in half of the histories the providers discriminate on the server id (one serves only \"server-a\", one any, one only requests without a server id), the lookup names a server id from {none, server-a, server-b} and another lookup of the same service for some server id may already be running on the bus; " +
 		"codec mode: (service id, server id) incl. unicode, NUL and empty, and arbitrary component-id strings; " +
 		"oracle: Exists/Removed strictly alternate starting with Exists, after every step the last of them reflects providers>0 (eventual, waited for up to 10 s), Idle values never repeat; component id round-trips; non-trivial = providers drop to 0 and rise again / non-empty codec input",
 	Assumptions: []string{"the eventual clause is waited for with a 10 s bound; a longer stall would be reported as a violation"},
